@@ -5,6 +5,7 @@ mod ops_core;
 mod canon;
 mod ops_types;
 mod ops_sink;
+mod ops_iana;
 mod ops_seq;
 mod ops_io;
 mod ops_token;
@@ -37,6 +38,8 @@ fn handler(op: &str) -> Option<Handler> {
         "PFX" => Some(ops_types::pfx_handler),
         "SINK" => Some(ops_sink::sink_handler),
         "SINKE" => Some(ops_sink::sinke_handler),
+        "IANA" => Some(ops_iana::iana_handler),
+        "IANAT" => Some(ops_iana::ianat_handler),
         "SEQ" => Some(ops_seq::seq_handler),
         "SZ" => Some(ops_seq::sz_handler),
         "DROPS" => Some(ops_seq::drops_handler),
